@@ -93,7 +93,11 @@ def run(ctx):
                     smp = []
                     for n in rn:
                         L = len(lay[n])
-                        if datak == "real":
+                        if len(rn) > 1 and n == rn[-1] and rng.random() < 0.3:
+                            # an observable frozen on one replica (e.g. a topological charge on a short stream): constant samples
+                            smp.append(np.array([float(rng.randint(1, 3))] * L))
+                            ctx.count("frozen replica")
+                        elif datak == "real":
                             smp.append(np.array([rng.randint(-50, 50) / 8.0 + 0.3 for _ in range(L)]))
                         else:
                             smp.append(np.array(count_data(rng, L, datak == "count-mean")))
